@@ -53,6 +53,13 @@ P1 == [s \in AllSpecies |-> CASE s = "A" -> Q(2) [] s = "B" -> Q(3) [] s = "C" -
 P2 == [s \in AllSpecies |-> CASE s = "A" -> Q(3) [] s = "B" -> Q(7) [] s = "C" -> Q(2) [] s = "D" -> Q(5)]
 \* a rational point (Fraction replay): 2/3 3/5 5/7 7/2
 P3 == [s \in AllSpecies |-> CASE s = "A" -> <<2, 3>> [] s = "B" -> <<3, 5>> [] s = "C" -> <<5, 7>> [] s = "D" -> <<7, 2>>]
+\* the zero value class: a substance that is absent, a feed that does not contain some substances,
+\* a reaction switched off by k = 0, no flow at all
+PZ == [s \in AllSpecies |-> CASE s = "A" -> Q(0) [] s = "B" -> Q(3) [] s = "C" -> Q(5) [] s = "D" -> Q(7)]
+CFZ == [s \in AllSpecies |-> CASE s = "A" -> Q(0) [] s = "B" -> Q(29) [] s = "C" -> Q(0) [] s = "D" -> Q(37)]
+PtsZero == {PZ, P1}
+PtsZ1 == {PZ}
+KZ == <<Q(11), Q(0), Q(17)>>
 Pts1 == {P1}
 Pts2 == {P1, P2}
 Pts3 == {P1, P2, P3}
@@ -62,6 +69,9 @@ Fd1 == { [F |-> Q(19), cf |-> CF1, kind |-> "all"] }
 Fd2 == { [F |-> Q(19), cf |-> CF1, kind |-> "all"], [F |-> <<1, 2>>, cf |-> P2, kind |-> "rev"] }
 \* the caller's substance -> feed-key mapping: builder default, system order, reversed, a reversed subset
 FdKinds == { [F |-> Q(19), cf |-> CF1, kind |-> kd] : kd \in {"all", "map", "rev", "sub"} }
+FdZero == { [F |-> Q(19), cf |-> CFZ, kind |-> "all"], [F |-> Q(19), cf |-> CFZ, kind |-> "rev"],
+            [F |-> Q(0), cf |-> [s \in AllSpecies |-> Q(23)], kind |-> "all"] }
+FdZero2 == { [F |-> Q(19), cf |-> CFZ, kind |-> "all"], [F |-> Q(0), cf |-> [s \in AllSpecies |-> Q(23)], kind |-> "all"] }
 FdRev == { [F |-> Q(19), cf |-> CF1, kind |-> "rev"] }
 FdMaps == { [F |-> Q(19), cf |-> CF1, kind |-> kd] : kd \in {"rev", "sub"} }
 PhZero == [s \in AllSpecies |-> 0]
